@@ -51,6 +51,64 @@ def collapse_arith(c, inside):
     return c, cnt
 
 
+def crc_type_nodes(c):
+    """Type-reference nodes of the generator tree that the canonical form prints in the CRC spelling (everything
+    outside repetition brackets), in a fixed order."""
+    out = []
+
+    def typ(t):
+        if t["k"] == "type":
+            out.append(t)
+            for a in t["args"]:
+                typ(a)
+    for f in c["fields"]:
+        if "rep" not in f:
+            typ(f["type"])
+    if c["func"]:
+        typ(c["result"])
+    return out
+
+
+def toggle_bare(c, i):
+    c = copy.deepcopy(c)
+    n = crc_type_nodes(c)[i]
+    n["bare"] = not n["bare"]
+    return c
+
+
+def local_name(t):
+    return t["name"].split(".")[-1]
+
+
+def py_canon(c):
+    """Independent re-implementation of the documented canonical form for combinators without repetitions:
+    one line, no braces, single spaces, arithmetic by value, '%' only before names whose local part does not start
+    with a lower-case letter.  None if the combinator has a repetition."""
+    if any("rep" in f for f in c["fields"]):
+        return None
+
+    def t(x):
+        if x["k"] == "hash":
+            return "#"
+        if x["k"] == "arith":
+            return str(sum(x["nums"]))
+        pct = "%" if (x["bare"] and not local_name(x)[:1].islower()) else ""
+        return " ".join([pct + x["name"]] + [t(a) for a in x["args"]])
+    parts = [c["name"]]
+    for n, isnat in c["targs"]:
+        parts.append(n + (":#" if isnat else ":Type"))
+    if c["builtin"]:
+        parts.append("?")
+    for f in c["fields"]:
+        s = (f["name"] + ":" if f["name"] else "")
+        if f["mask"]:
+            s += "%s.%d?" % f["mask"]
+        parts.append(s + t(f["type"]))
+    parts.append("=")
+    parts.append(t(c["result"]) if c["func"] else " ".join([c["decl"][0]] + c["decl"][1]))
+    return " ".join(parts).encode()
+
+
 def gen_ops(ctx):
     rng = ctx.rng
     quick = ctx.quick()
@@ -74,6 +132,15 @@ def gen_ops(ctx):
             items.append((v, ""))
         groups.append((c, "layout", idx))
         if c["tag"] is None:
+            # twins with the bare marker toggled on one type reference outside brackets: '%' is part of the canonical
+            # form exactly for names whose local part does not start with a lower-case letter
+            nodes = crc_type_nodes(c)
+            for want_upper in (True, False):
+                cand = [k for k, n in enumerate(nodes) if (not local_name(n)[:1].islower()) == want_upper]
+                for k in rng.sample(cand, min(len(cand), 2)):
+                    idx2 = [idx[0], len(items)]
+                    items.append((g.text(toggle_bare(c, k), True, "rand"), ""))
+                    groups.append((c, "bare-toggle-upper" if want_upper else "bare-toggle-lower", idx2))
             for inside in (False, True):
                 c2, cnt = collapse_arith(c, inside)
                 if cnt:
@@ -199,6 +266,11 @@ def oracle(ctx, ops, go_out):
         base = ps[0].combs[0]
         name = c["name"]
         if kind == "layout":
+            pc = py_canon(c)
+            if pc is not None:
+                st["pycanon"] = st.get("pycanon", 0) + 1
+                if pc != base["canon"]:
+                    bad.append((show(items[idx[0]][0]), "canonical-text", f"Go canonical form {base['canon']!r}, documented form {pc!r}", f"C23:canonical-text:{name}"))
             if c["tag"] is not None and base["id"] != c["tag"]:
                 bad.append((show(items[idx[0]][0]), "explicit", f"Crc32={base['id']:08x} written #{c['tag']:08x}", f"C23:explicit-verbatim:{name}"))
             for j, p in zip(idx[1:], ps[1:]):
@@ -207,6 +279,14 @@ def oracle(ctx, ops, go_out):
                     bad.append((show(items[j][0]), "layout-tag", f"tag {o['id']:08x} vs {base['id']:08x} for {items[idx[0]][0]!r}", f"C23:layout-tag:{name}"))
                 elif o["dump"] != base["dump"]:
                     bad.append((show(items[j][0]), "layout-ast", f"AST differs from {items[idx[0]][0]!r}", f"C23:layout-ast:{name}"))
+        elif kind == "bare-toggle-upper":
+            o = ps[1].combs[0]
+            if o["id"] == base["id"]:
+                bad.append((show(items[idx[1]][0]), kind, f"same tag {o['id']:08x} with and without '%' on an upper-case type name: {o['canon']!r} vs {base['canon']!r}", f"C23:bare-marker-lost:{name}"))
+        elif kind == "bare-toggle-lower":
+            o = ps[1].combs[0]
+            if o["id"] != base["id"]:
+                bad.append((show(items[idx[1]][0]), kind, f"tag {o['id']:08x} vs {base['id']:08x}: '%' on a lower-case type name changed the tag ({o['canon']!r} vs {base['canon']!r})", f"C23:bare-marker-lower:{name}"))
         else:
             o = ps[1].combs[0]
             if o["id"] != base["id"]:
@@ -216,6 +296,7 @@ def oracle(ctx, ops, go_out):
                 if kind == "arith-in-repeat":
                     seen_sigs.add(sig)
                 bad.append((show(items[idx[1]][0]), kind, f"tag {o['id']:08x} ({o['canon']!r}) vs {base['id']:08x} ({base['canon']!r})", sig))
+    ctx.notes["canonical_texts_vs_python_reimplementation"] = st.get("pycanon", 0)
     return bad
 
 
